@@ -111,7 +111,7 @@ CLAIMED = {
         "Finite value universe; rendering of values as Jsonnet literals in lib/render.py.",
         "TLC-checked laws on reference equality/order + exhaustive replay"),
     "C09": E("model_checking",
-        "spec/Static.tla is the static judgement (set of scoping errors); spec/MC_Static.tla composes 40 one-hole contexts "
+        "spec/Static.tla is the static judgement (set of scoping errors); spec/MC_Static.tla composes 44 one-hole contexts "
         "(every binder kind and syntactic position, dead code included) to depth 2 and fills them with 25 faulty and "
         "fault-free expressions. The implementation must reject a program at load time iff the set is non-empty, with a "
         "member of the set; programs that load are evaluated and must never crash on an unbound name.",
